@@ -271,3 +271,139 @@ Proof. vm_compute. reflexivity. Qed.
 Example ex_rate : current_rate 10 [(0, 5); (10, 7); (11, 9)] = Some 7 /\ current_rate 3 [(5, 1)] = None /\
   active_scale 30 [(30, 1000); (40, 500)] = Some 500 /\ active_scale 40 [(30, 1000); (40, 500)] = None.
 Proof. vm_compute. repeat split; reflexivity. Qed.
+
+(* ---------- TransferFromCommon ---------- *)
+Lemma tfc_spec cd a common amount escrow rate :
+  let r := transfer_from_common cd a common amount escrow rate in
+  let t := N.min common amount in
+  (* nothing moved, nothing changed *)
+  ((t = 0 \/ trcode r <> COk) -> tracct r = a /\ trcommon r = common /\ trmoved r = 0) /\
+  (trcode r = COk -> t <> 0 ->
+     trmoved r = t /\ trcommon r = common - t /\
+     (* conservation *)
+     tagen (tracct r) + bal (tapool (tracct r)) + trcommon r = tagen a + bal (tapool a) + common /\
+     tsh (tapool (tracct r)) = tsh (tapool a) + trminted r /\
+     taself (tracct r) = taself a + trminted r /\
+     (escrow = false -> tracct r = mkTA (tagen a + t) (tapool a) (taself a)) /\
+     (escrow = true ->
+        trcom r <= t /\
+        (* the entity receives exactly the commission share unless the pool has NO shares *)
+        (tsh (tapool a) <> 0 -> trcom r = t * rate / cd) /\
+        (tsh (tapool a) = 0 -> trcom r = t) /\
+        (* the non-commission part goes to the pool balance, without shares *)
+        bal (tapool a) + (t - trcom r) <= bal (tapool (tracct r)) /\
+        (* the commission is either deposited (shares at most pro rata) or, for a
+           pool that is still dead, left in the general balance *)
+        ((tagen (tracct r) = tagen a /\ bal (tapool (tracct r)) = bal (tapool a) + t /\
+          (tsh (tapool a) <> 0 ->
+           trminted r * (bal (tapool a) + (t - trcom r)) <= trcom r * tsh (tapool a))) \/
+         (tagen (tracct r) = tagen a + trcom r /\ trminted r = 0 /\
+          bal (tapool a) = 0 /\ t - trcom r = 0 /\ tsh (tapool a) <> 0 /\
+          bal (tapool (tracct r)) = 0)))).
+Proof.
+  intros r t. subst r. unfold transfer_from_common. fold t.
+  destruct (N.eqb_spec t 0) as [T0|T0].
+  { cbn [trcode tracct trcommon trmoved]. split; [intros _; repeat split|intros _ Hn; contradiction]. }
+  destruct escrow; cbn [negb].
+  2:{ cbn [trcode tracct trcommon trmoved trminted tagen tapool taself]. split.
+      - intros [H|H]; contradiction.
+      - intros _ _. assert (t <= common) by (unfold t; lia). repeat split; try lia; try discriminate. }
+  set (cc := if tsh (tapool a) =? 0 then Some (t, 0) else compute_commission cd rate t).
+  assert (Hcc : forall com rest, cc = Some (com, rest) ->
+            com + rest = t /\ (tsh (tapool a) <> 0 -> com = t * rate / cd) /\ (tsh (tapool a) = 0 -> com = t /\ rest = 0)).
+  { intros com rest. unfold cc. destruct (N.eqb_spec (tsh (tapool a)) 0) as [S0|S0].
+    - intros E. injection E as <- <-. repeat split; try lia; contradiction.
+    - intros E. apply compute_commission_some in E as [E1 E2]. repeat split; try lia; try exact E2; contradiction. }
+  destruct cc as [[com rest]|].
+  2:{ cbn [trcode tracct trcommon trmoved]. split; [intros _; repeat split|intros Hc; discriminate]. }
+  destruct (Hcc com rest eq_refl) as [Hsum [Hs1 Hs0]]. clear Hcc.
+  assert (Htc : t <= common) by (unfold t; lia).
+  set (p1 := mkPool (bal (tapool a) + rest) (tsh (tapool a))).
+  set (g1 := tagen a + t - rest).
+  destruct ((com =? 0) || ((bal p1 =? 0) && negb (tsh p1 =? 0))) eqn:Skip.
+  - cbn [trcode tracct trcommon trmoved trminted trcom tagen tapool taself]. split; [intros [H|H]; contradiction|].
+    intros _ _. cbn [p1 bal tsh]. unfold g1.
+    split; [reflexivity|]. split; [reflexivity|]. split; [lia|]. split; [lia|]. split; [lia|].
+    split; [discriminate|].
+    intros _. split; [lia|]. split; [exact Hs1|]. split; [intros H; apply (Hs0 H)|]. split; [lia|].
+    destruct (N.eqb_spec com 0) as [C0|C0].
+    + left. subst com. repeat split; try lia.
+    + cbn [orb] in Skip. cbn [p1 bal tsh] in Skip. right. repeat split; lia.
+  - apply orb_false_iff in Skip as [C0 Dd]. apply N.eqb_neq in C0.
+    assert (Hnd : shares_for_stake p1 com <> None).
+    { intros Hn. apply sfs_none in Hn as [H1 H2]. cbn [p1 bal tsh] in *. lia. }
+    destruct (shares_for_stake p1 com) as [m|] eqn:ES; [|contradiction].
+    unfold deposit. rewrite ES. destruct (N.ltb_spec g1 com) as [L|L]; [unfold g1 in L; lia|].
+    cbn [rcode rpool rsrc rdst rret trcode tracct trcommon trmoved trminted trcom tagen tapool taself].
+    split; [intros [H|H]; contradiction|]. intros _ _. cbn [p1 bal tsh]. unfold g1.
+    split; [reflexivity|]. split; [reflexivity|]. split; [lia|]. split; [lia|]. split; [lia|].
+    split; [discriminate|].
+    intros _. split; [lia|]. split; [exact Hs1|]. split; [intros H; apply (Hs0 H)|]. split; [lia|].
+    left. repeat split; try lia. intros S0.
+    pose proof (sfs_bounds _ _ _ ES S0) as [_ [Lm _]]. cbn [p1 bal tsh] in Lm.
+    replace (t - com) with rest by lia. exact Lm.
+Qed.
+
+(* fairness: the price does not fall, no holder's worth falls, and with shares
+   outstanding every holder gets its pro-rata part of the non-commission part,
+   a pool slashed to zero included *)
+Lemma tfc_holders_get_noncommission_l cd a common amount escrow rate u :
+  let r := transfer_from_common cd a common amount escrow rate in
+  price_le (tapool a) (tapool (tracct r)) /\
+  worth (tapool a) u <= worth (tapool (tracct r)) u /\
+  (trcode r = COk -> escrow = true -> tsh (tapool a) <> 0 ->
+   u * (bal (tapool a) + (trmoved r - trcom r)) / tsh (tapool a) <= worth (tapool (tracct r)) u).
+Proof.
+  intros r. pose proof (tfc_spec cd a common amount escrow rate) as [H0 H1]. cbv zeta in H0, H1. fold r in H0, H1.
+  set (t := N.min common amount) in *.
+  destruct (N.eq_dec t 0) as [T0|T0].
+  { destruct (H0 (or_introl T0)) as [E [_ Em]]. rewrite E, Em.
+    split; [unfold price_le; lia|]. split; [lia|]. intros _ _ S0. rewrite N.sub_0_l, N.add_0_r. unfold worth. rewrite stake_div by exact S0. lia. }
+  destruct (code_eqb (trcode r) COk) eqn:Ec.
+  2:{ assert (Hn : trcode r <> COk) by (intros Hc; rewrite Hc in Ec; discriminate).
+      destruct (H0 (or_intror Hn)) as [E _]. rewrite E.
+      split; [unfold price_le; lia|]. split; [lia|]. intros Hc; contradiction. }
+  assert (Hok : trcode r = COk) by (destruct (trcode r); try discriminate; reflexivity).
+  destruct (H1 Hok T0) as [Em [_ [_ [Hs [_ [Hf He]]]]]].
+  destruct escrow.
+  2:{ rewrite (Hf eq_refl). cbn [tapool].
+      split; [unfold price_le; lia|]. split; [lia|]. intros _ Hc; discriminate. }
+  destruct (He eq_refl) as [Hct [_ [_ [Hb Hcase]]]].
+  (* cross-multiplied price after >= (B + rest) / S *)
+  assert (Hx : tsh (tapool a) <> 0 ->
+               (bal (tapool a) + (t - trcom r)) * tsh (tapool (tracct r)) <= bal (tapool (tracct r)) * tsh (tapool a)).
+  { intros S0. rewrite Hs. destruct Hcase as [[_ [Eb Hm]]|[_ [Em0 [_ [_ [_ _]]]]]].
+    - specialize (Hm S0). rewrite Eb. rewrite N.mul_add_distr_l.
+      replace (bal (tapool a) + t) with (bal (tapool a) + (t - trcom r) + trcom r) by lia.
+      rewrite (N.mul_add_distr_r _ (trcom r)). lia.
+    - rewrite Em0, N.add_0_r. apply N.mul_le_mono_r. exact Hb. }
+  assert (Hp : price_le (tapool a) (tapool (tracct r))).
+  { unfold price_le. intros S0. specialize (Hx S0).
+    assert (bal (tapool a) * tsh (tapool (tracct r)) <= (bal (tapool a) + (t - trcom r)) * tsh (tapool (tracct r)))
+      by (apply N.mul_le_mono_r; lia). lia. }
+  split; [exact Hp|]. split.
+  - apply worth_mono_price; [exact Hp|]. intros Hz. unfold worth. apply stake_zero. lia.
+  - intros _ _ S0. rewrite Em. unfold worth.
+    assert (S1 : tsh (tapool (tracct r)) <> 0) by lia.
+    rewrite (stake_div _ _ S1). apply div_le_cross; [exact S0|exact S1|].
+    specialize (Hx S0).
+    assert (u * ((bal (tapool a) + (t - trcom r)) * tsh (tapool (tracct r))) <= u * (bal (tapool (tracct r)) * tsh (tapool a)))
+      by (apply N.mul_le_mono_l; exact Hx). lia.
+Qed.
+
+(* the scenario of a pool slashed to zero: 200 shares outstanding, reward 100
+   with 20% commission: 80 revive the pool for all holders, 20 are deposited
+   for the entity at the new price (50 shares); with 100% commission the pool
+   stays dead and the commission stays liquid; no shares: all commission *)
+Example ex_tfc_dead_pool :
+  transfer_from_common 100000 (mkTA 0 (mkPool 0 200) 50) 1000 100 true 20000
+  = mkTR COk (mkTA 0 (mkPool 100 250) 100) 900 100 20 50 /\
+  transfer_from_common 100000 (mkTA 0 (mkPool 0 200) 50) 1000 100 true 100000
+  = mkTR COk (mkTA 100 (mkPool 0 200) 50) 900 100 100 0 /\
+  transfer_from_common 100000 (mkTA 7 (mkPool 0 0) 0) 1000 100 true 20000
+  = mkTR COk (mkTA 7 (mkPool 100 100) 100) 900 100 100 100 /\
+  transfer_from_common 100000 (mkTA 7 (mkPool 300 100) 10) 60 100 true 50000
+  = mkTR COk (mkTA 7 (mkPool 360 109) 19) 0 60 30 9 /\
+  transfer_from_common 100000 (mkTA 7 (mkPool 300 100) 10) 60 100 false 50000
+  = mkTR COk (mkTA 67 (mkPool 300 100) 10) 0 60 0 0.
+Proof. vm_compute. repeat split; reflexivity. Qed.
